@@ -354,6 +354,26 @@ func (c *Ctx) checkRollingName(r *Report, s openSite, site ssa.CallInstruction) 
 			}
 			return
 		}
+		// fmt.Sprintf with a constant format of literal text and %s/%v verbs is a concatenation
+		if n.isCall("fmt.Sprintf") {
+			if call, ok := n.V.(*ssa.Call); ok && len(call.Call.Args) == 2 {
+				if format, ok := constString(call.Call.Args[0]); ok {
+					if lits, okf := splitStringFormat(format); okf {
+						if elems := variadicElems(call.Call.Args[1], c, n.Fr); len(elems) == len(lits)-1 && allStrings(elems) {
+							for i, l := range lits {
+								if l != "" {
+									parts = append(parts, &PNode{Kind: "const", Const: constant.MakeString(l)})
+								}
+								if i < len(elems) {
+									flat(elems[i])
+								}
+							}
+							return
+						}
+					}
+				}
+			}
+		}
 		parts = append(parts, n)
 	}
 	flat(join)
@@ -445,6 +465,42 @@ func (c *Ctx) checkRollingName(r *Report, s openSite, site ssa.CallInstruction) 
 
 // variadicElems recovers the elements of a variadic argument slice built by go/ssa
 // (new [n]T; stores to &t[i]; slice t[:]).
+// splitStringFormat splits a format made only of literal text, %% and plain %s / %v verbs at the verbs.
+func splitStringFormat(f string) ([]string, bool) {
+	var lits []string
+	cur := ""
+	for i := 0; i < len(f); i++ {
+		if f[i] != '%' {
+			cur += string(f[i])
+			continue
+		}
+		if i+1 >= len(f) {
+			return nil, false
+		}
+		switch f[i+1] {
+		case '%':
+			cur += "%"
+		case 's', 'v':
+			lits = append(lits, cur)
+			cur = ""
+		default:
+			return nil, false
+		}
+		i++
+	}
+	return append(lits, cur), true
+}
+
+// allStrings: every operand is of string type (so %s and %v print it verbatim).
+func allStrings(ns []*PNode) bool {
+	for _, n := range ns {
+		if n.V == nil || !isStringType(n.V.Type()) {
+			return false
+		}
+	}
+	return true
+}
+
 func variadicElems(v ssa.Value, c *Ctx, fr *Frame) []*PNode {
 	sl, ok := v.(*ssa.Slice)
 	if !ok {
